@@ -21,6 +21,11 @@ from vf.sym import S, SI
 # sat-side instance search only (never decides "holds"; every model is replayed on the real code)
 hs.install_int_aware_search()
 
+# Cases dedicated to an expected defect: refuting a polynomial NON-identity directly is where nlsat gets stuck
+# (it can ignore its timeout for minutes), so the direct query gets 1 ms and the instance search (DESIGN 2.3) runs
+# first; identities are still proved by the full query afterwards ("holds" is only ever an unsat of the full query).
+_INSTANCE_FIRST = 0.001
+
 ASSUMPTIONS = [
     "exact real/complex arithmetic (floating-point rounding of tensor arithmetic outside the claim)",
     "end times are start + e*dt with dt in {1, 0.5} and integer start, so that (end-start)/dt is exact: the "
@@ -38,10 +43,14 @@ def _tempo_env(N):
     return {"noconj": True, "extra": extra}
 
 
+_OVER = 3      # user callables are defined for _OVER*N steps: an implementation that oversteps the target must show
+               # up as a difference in the dynamics, not as an IndexError of the harness's own stand-ins
+
+
 def _tempo_inputs(inp, d, K, N, name=""):
     infl = lib.Influences(inp, d, K, name=name + "I")
-    P1 = [lib.tp_prop(inp, "%sp%d" % (name, k), d) for k in range(N)]
-    P2 = [lib.tp_prop(inp, "%sq%d" % (name, k), d) for k in range(N)]
+    P1 = [lib.tp_prop(inp, "%sp%d" % (name, k), d) for k in range(_OVER * N)]
+    P2 = [lib.tp_prop(inp, "%sq%d" % (name, k), d) for k in range(_OVER * N)]
     rho0 = inp.arr(name + "r", (d, d))
     start = inp.int(name + "start", -2, 2)
     return infl, P1, P2, rho0, start
@@ -100,9 +109,9 @@ class H1Tempo(Case):
 
 def _mf_inputs(inp, d, K, N):
     infl = lib.Influences(inp, d, K)
-    A1 = [lib.gen_prop(inp, "a%d" % k, d) for k in range(N)]
-    B1 = [lib.gen_prop(inp, "b%d" % k, d) for k in range(N)]
-    A2 = [lib.gen_prop(inp, "q%d" % k, d) for k in range(N)]
+    A1 = [lib.gen_prop(inp, "a%d" % k, d) for k in range(_OVER * N)]
+    B1 = [lib.gen_prop(inp, "b%d" % k, d) for k in range(_OVER * N)]
+    A2 = [lib.gen_prop(inp, "q%d" % k, d) for k in range(_OVER * N)]
     rho0 = inp.arr("r", (d, d))
     start = inp.int("start", -2, 2)
     f0 = inp.real("f0")
@@ -189,7 +198,7 @@ class H1PtTebd(Case):
 
     def run(self, inp):
         N, dt = self.N, self.dt
-        hs.LinearBackend.model = hs.linear_model(inp, N)
+        hs.LinearBackend.model = hs.linear_model(inp, _OVER * N)
         v0 = inp.arr("v", (4,))
         start = inp.int("start", -2, 2)
         ctr = _tebd_controls(inp, [(1, False), (2, True), (N, False)])
@@ -228,6 +237,7 @@ class H2Tempo(Case):
         self.bounds = {"d": 2, "N": N, "dkmax": K, "calls": "compute(e1); compute(N); each retried once after the fault"}
         self.env = _tempo_env(N)
         self.timeout_s = 300
+        self.first_timeout_s = _INSTANCE_FIRST
 
     def run(self, inp):
         d, N, K, dt = 2, self.N, self.K, self.dt
@@ -289,7 +299,7 @@ class H2MeanField(Case):
     def __init__(self, kind, N, K, dt=0.5, pre=True):
         self.kind, self.N, self.K, self.dt, self.pre = kind, N, K, dt, pre
         self.id = "H2/meanfield_fault_%s/N%d_K%s%s" % (kind, N, K, "" if pre else "_single")
-        self.first_timeout_s = 2
+        self.first_timeout_s = _INSTANCE_FIRST
         self.bounds = {"d": 2, "systems": 1, "N": N, "dkmax": K, "fault": "call index mod 4 in %s" % (_MF_KINDS[kind],),
                        "calls": "compute(e1); compute(N); each retried once after the fault"}
         self.env = _tempo_env(N)
@@ -390,6 +400,7 @@ class H3Gibbs(Case):
         self.id = "H3/gibbs_compute_twice/n%d_%s%s" % (n_steps, coupling, "" if calls == 2 else "_x%d" % calls)
         self.bounds = {"d": 2, "n_steps": n_steps, "coupling": coupling, "compute_calls": calls}
         self.timeout_s = 300
+        self.first_timeout_s = _INSTANCE_FIRST
 
     def _make(self, inp, G, ck):
         if self.coupling == "zero":
@@ -405,7 +416,7 @@ class H3Gibbs(Case):
         G = inp.arr("G", (d, d))
         ck = None
         if self.coupling != "zero":
-            ck = [inp.real("c%d" % k, lo=-1, hi=1) for k in range(2 * self.n_steps + 2)]
+            ck = [inp.real("c%d" % k) for k in range(2 * self.n_steps + 2)]
         obj = self._make(inp, G, ck)
         for _ in range(self.calls):
             obj.compute(progress_type="silent")
@@ -444,12 +455,14 @@ class H4Restart(Case):
         self.N, self.controls, self.dt = N, controls, dt
         self.id = ("H4/restart_pre_control_at_restart_step/steplogic_N%d" % N if controls == "pre_at_restart_step"
                    else "H4/restart_steplogic_%s/N%d" % (controls, N))
+        if controls == "pre_at_restart_step":
+            self.first_timeout_s = _INSTANCE_FIRST
         self.bounds = {"N": N, "restart_step": "1..N-1 (symbolic)", "sites": 2, "controls": controls}
         self.env = _tebd_env(N)
 
     def run(self, inp):
         N, dt = self.N, self.dt
-        hs.LinearBackend.model = hs.linear_model(inp, N)
+        hs.LinearBackend.model = hs.linear_model(inp, _OVER * N)
         v0 = inp.arr("v", (4,))
         start = inp.int("start", -2, 2)
         r = int(inp.int("r", 1, N - 1))          # concretised: one path per restart step
@@ -500,7 +513,7 @@ class H4RestartReal(Case):
         tail = "N%d_r%d_s%d_chi%d_b%d" % (N, r, sites, chi, ptbond)
         if controls == "pre_at_r":
             self.id = "H4/restart_pre_control_at_restart_step/real_backend_" + tail
-            self.first_timeout_s = 2
+            self.first_timeout_s = _INSTANCE_FIRST
         else:
             self.id = "H4/restart_real_backend/%s%s" % (tail, "_ctrl" if controls else "")
         self.bounds = {"N": N, "restart_step": r, "sites": sites, "gate_bond": chi, "pt_bond": ptbond, "d": 2,
